@@ -151,6 +151,49 @@ class Program(object):
         self.parse_errors = []
         self._load()
         self._resolve_bases()
+        if not os.environ.get("WV_NO_KWNORM"):
+            self._positional_normal_form()
+
+    def _positional_normal_form(self):
+        """Whole-program normal form N17: in a call that resolves to exactly one project function, keyword arguments that name the
+        next parameters in order are moved into the positional list (`f(x=a, y=b)` == `f(a, b)`), so that rules can read
+        `call.args[i]` whichever spelling the code uses.  Only the analyser's tree is changed; unresolved calls, **kwargs, and
+        keywords that skip a parameter stay as they are."""
+        from .calls import Calls
+        from . import norm
+        calls = Calls(self)
+        self._calls = calls
+        for f in list(self.functions.values()):
+            for c in norm.calls_in(f.node):
+                if not c.keywords or any(k.arg is None for k in c.keywords) or any(isinstance(a, ast.Starred) for a in c.args):
+                    continue
+                try:
+                    r = calls.resolve(f, c)
+                except Exception:
+                    continue
+                if r.kind != "exact" or len(r.targets) != 1:
+                    continue
+                t = r.targets[0]
+                a = t.node.args
+                if getattr(a, "posonlyargs", None):
+                    continue
+                params = [x.arg for x in a.args]
+                unbound = isinstance(c.func, ast.Attribute) and c.args and isinstance(c.args[0], ast.Name) and c.args[0].id == "self" \
+                    and "classmethod" not in t.decorators and norm.canon(c.func.value) != "self" and not isinstance(c.func.value, ast.Call) \
+                    and t.cls is not None
+                if t.cls is not None and "staticmethod" not in t.decorators and params and params[0] in ("self", "cls") and not unbound:
+                    params = params[1:]
+                i = len(c.args)
+                kws = dict((k.arg, k) for k in c.keywords)
+                moved = False
+                while i < len(params) and params[i] in kws:
+                    k = kws.pop(params[i])
+                    c.args.append(k.value)
+                    c.keywords.remove(k)
+                    i += 1
+                    moved = True
+                if moved:
+                    norm.invalidate(f.node) if hasattr(norm, "invalidate") else None
 
     # ------------------------------------------------------------------ load
     def _load(self):
